@@ -12,6 +12,7 @@ Spec: specs/OpEdit.tla (+ MC_OpEdit, OpEditTrace).
     recorded from the real op and validated by TLC against OpEditTrace.
 """
 import json, os, random, sys, time, collections, multiprocessing as mp
+PMAP_TIMEOUT = int(__import__('os').environ.get('VERIF_PMAP_TIMEOUT', '300'))
 from harness import tlc
 from harness.core import Check
 
@@ -411,8 +412,10 @@ def run(tier, seed, replay=None):
             exp = {"allowed": exp["allowed"], "cls": exp["cls"], "opt": exp["opt"]}
         jobs.append((path[s], lbl, {"present": list(st["present"]), "ineqs": st["ineqs"], "eqs": st["eqs"]}, exp))
     chunks = [jobs[i::64] for i in range(64)]
-    with mp.Pool(16) as pool:
-        results = pool.map(_replay_chunk, chunks)
+    from harness.core import pmap
+    results = pmap(ck, _replay_chunk, chunks, "c13", timeout=PMAP_TIMEOUT, chunksize=1)
+    if results is None:
+        ck.finish()
     nrep = 0
     for n, res in results:
         nrep += n
@@ -446,8 +449,10 @@ def run(tier, seed, replay=None):
             w.append((lbl, ds))
             s = d
         walks.append(w)
-    with mp.Pool(16) as pool:
-        wres = pool.map(_walk_chunk, [walks[i::32] for i in range(32)])
+    from harness.core import pmap
+    wres = pmap(ck, _walk_chunk, [walks[i::32] for i in range(32)], "c13", timeout=PMAP_TIMEOUT, chunksize=1)
+    if wres is None:
+        ck.finish()
     nwalk = 0
     for n, res in wres:
         nwalk += n
@@ -460,8 +465,10 @@ def run(tier, seed, replay=None):
 
     # 4. code -> spec: random histories validated by TLC
     ntr, maxlen = (600, 30) if quick else (6000, 40)
-    with mp.Pool(16) as pool:
-        parts = pool.map(_gen_traces, [(seed * 1000 + i, ntr // 16 + 1, maxlen) for i in range(16)])
+    from harness.core import pmap
+    parts = pmap(ck, _gen_traces, [(seed * 1000 + i, ntr // 16 + 1, maxlen) for i in range(16)], "c13", timeout=PMAP_TIMEOUT, chunksize=1)
+    if parts is None:
+        ck.finish()
     traces = [t for part in parts for t in part]
     ok, acc, failed = validate_traces(ck, traces, "random")
     if ok:
